@@ -89,6 +89,11 @@ CLAIMED = {
    text="sets: all histories of length <= 4 (thorough 6) over 4 elements into TransactionInputs, Ed25519KeyHashes, Credentials, Certificates, VotingProposals, Vkeywitnesses, BootstrapWitnesses x {add, bytes tagged/untagged x definite/indefinite, JSON, decode-a-prefix-then-add at every split, inside a TransactionBody (fields 0, 13, 18, 14, 4, 20) / TransactionWitnessSet (0, 2)}; items cut from the emitted bytes == history with later repeats dropped, also after JSON/bytes round trip and clone; len/get/add-return agree. witness_setters: histories <= 4 (5) over 4 native scripts, 4 Plutus scripts, 5 datums (same value constructed / decoded / decoded non-canonical). asset_maps: <= 3 (4) insertions over 3 policies x 4 names (lengths 0,1,1,2) through MultiAsset::set_asset, Assets+MultiAsset::insert, Value, decoding unsorted bytes / JSON, add_mint_asset, MintBuilder, set_mint; key order length-first canonical at both levels and content == model. builder: BFS to depth 4 (5) over 39 ops x 2 configs x 2 finishing methods; byte-identical rebuilds (object, clone, 4 hash seeds), no repeated element in any set-typed field of the built transaction, every value and mint canonical.",
    note="Trusted: refcbor; RFC 8949 length-first key order. Hash-order seam: verif-hooks feature (seeded HashMap/HashSet in the builder).",
    design="DESIGN.md §3 C16"),
+ "C04": dict(
+   technique="bounded-exhaustive enumeration (E1) with a deviation bound: every re-encoding of base transactions / datums / block bodies with <= B encoding deviations (independent CBOR writer) x load paths x every history of signature / setter operations on the real FixedTransaction; oracle = byte spans of the input cut out by the independent reader, Blake2b and Ed25519 from cryptoxide",
+   text="fixed_tx: 4 base transactions (minimal; full Conway body with all 8 witness fields and tag-259 auxiliary data, tagged sets; the same with untagged sets; legacy array redeemers with witness keys out of order) x all trees with <= 1 deviation (thorough: <= 2 with histories <= 1) from the per-node menu {each wider head, indefinite container, string in 1 / 2 chunks / empty first chunk, adjacent map entries swapped, map entry repeated, set element repeated, set tag dropped / added} x {from_bytes, from_hex, new / new_with_auxiliary} x every history of <= 2 (3) operations over 11 (add / sign vkey, add / sign bootstrap icarus + daedalus, re-adding a present witness, set_body, set_auxiliary_data, set_is_valid), checked after load and after every operation. datum: 7 base datums x <= 2 (3) deviations x 7 containers. block: the rich bodies x <= 1 deviation inside a block (FixedBlock, FixedTransactionBody).",
+   note="Trusted: refcbor, cryptoxide. Repeating an element of a fixed-arity array (another shape, not another encoding) is left to C02's recorded finding.",
+   design="DESIGN.md §3 C04"),
 }
 
 PENDING_REASON = "check not built yet in this session (work in progress; see DESIGN.md §8 construction order)"
